@@ -59,7 +59,7 @@ def ints(canon):
 def main(tier):
     rep = core.Reporter("C19", tier)
     n_small = 20000 if tier == "quick" else 200000
-    n_big = 4000000 if tier == "quick" else 100000000
+    n_big = 4000000 if tier == "quick" else 40000000
     rep.coverage["rule"] = (
         "allocation patterns with a known bounded live set (acyclic, cycles of length 1..50 through boxes / vectors / mutable "
         "struct fields, self-capturing closures, mixed cycles, garbage held only by a local during a collection, by a dead "
@@ -78,8 +78,9 @@ def main(tier):
         # natural policy, many allocations, sampling the size of the slot vectors
         for name in ("acyclic-boxes", "box-cycles-1..50", "mixed-cycles", "acyclic-vectors"):
             body = PATTERNS[name][0]
-            chunk = max(1, n_big // 20)
-            text = PRELUDE + "\n(define samples '())\n(repeat 20 (lambda () %s (set! samples (cons (#%%verif-heap-stats) samples))))\n(verif-emit (map (lambda (s) (list (list-ref s 0) (list-ref s 3))) samples))" % body.replace("N", str(chunk))
+            nsamples = 20 if tier == "quick" else 250
+            chunk = max(1, n_big // nsamples)
+            text = PRELUDE + "\n(define samples '())\n(repeat %d (lambda () %s (set! samples (cons (#%%verif-heap-stats) samples))))\n(verif-emit (map (lambda (s) (list (list-ref s 0) (list-ref s 3))) samples))" % (nsamples, body.replace("N", str(chunk)))
             cid = "%s|natural:%s|%d" % (cname, name, n_big)
             meta[cid] = ("natural", name, n_big, 0, 0, cname, env, text)
             cases.append({"id": cid, "units": [text], "timeout_ms": 900000, "no_vals": True, "env": env, "mem_mb": 12288})
@@ -95,6 +96,7 @@ def main(tier):
             rep.inconclusive_note("harness: %s" % e)
     mismatch_total = 0
     grow = {}
+    natural_runs = {}
     for cid, (kind, name, n, lv, lvec, cname, env, text) in meta.items():
         res = results.get(cid)
         if res is None:
@@ -146,9 +148,29 @@ def main(tier):
             if not vals:
                 rep.inconclusive_note("%s: no samples" % name)
                 continue
-            if max(vals) > 8000000 or max(vecs) > 8000000:
+            # The engine's policy is a sawtooth: the slot vector doubles at every full collection and is compacted
+            # after ten doublings (observed on the unchanged tree: peaks of 6.6M slots in the first cycle, 13.3M in the
+            # later ones, creeping up by ~1.5 % per cycle - finding C19-F01).  Judged: an absolute ceiling, and - when
+            # the run is long enough to contain at least four compactions - that the peaks stop growing: the highest
+            # slot count of the second half of the run is at most 1.6 x the highest of the second quarter.
+            ceiling = 8000000 if n <= 4000000 else 64000000
+            series_v, series_c = vals[::-1], vecs[::-1]    # oldest first
+            natural_runs["%s/%s" % (cname, name)] = {"allocations": n, "peak_value_slots": max(vals), "peak_vector_slots": max(vecs),
+                                                     "compactions_seen": sum(1 for a, b in zip(series_v, series_v[1:]) if b < a) +
+                                                     sum(1 for a, b in zip(series_c, series_c[1:]) if b < a),
+                                                     "full_collections": cnt.get("FULL_COLLECTIONS", 0), "maxrss_mb": (res.get("maxrss_kb") or 0) // 1024}
+            trend_bad = None
+            for label, ser in (("value", series_v), ("vector", series_c)):
+                drops = sum(1 for a, b in zip(ser, ser[1:]) if b < a)
+                if drops >= 4 and len(ser) >= 40:
+                    q2 = max(ser[len(ser) // 4: len(ser) // 2])
+                    h2 = max(ser[len(ser) // 2:])
+                    if h2 > 1.6 * q2 + 100000:
+                        trend_bad = "%s slots: highest in the second quarter of the run %d, in the second half %d" % (label, q2, h2)
+            if max(vals) > ceiling or max(vecs) > ceiling or trend_bad:
                 rep.violation("C19 natural:%s: the heap grows without bound while the live set is constant" % name,
-                              "config=%s allocations=%d value slots over time (newest first)=%s vector slots=%s" % (cname, n, vals, vecs), replay)
+                              "config=%s allocations=%d %s value slots over time (newest first)=%s vector slots=%s" % (
+                                  cname, n, trend_bad or "ceiling %d exceeded;" % ceiling, vals[:60], vecs[:60]), replay)
             elif len(rep.coverage["samples"]) < 8:
                 rep.sample({"natural_policy_run": name, "config": cname, "allocations": n, "value_slots_newest_first": vals[:8],
                             "vector_slots_newest_first": vecs[:8], "full_collections": cnt.get("FULL_COLLECTIONS", 0)})
@@ -171,6 +193,7 @@ def main(tier):
                               {"config": {} if cname == "default" else {"STEEL_JIT": "false"}, "src": PRELUDE + "\n" + PATTERNS[name][0]})
     rep.note("excess_live_slots_by_pattern", {"%s/%s" % k: v for k, v in grow.items()})
     rep.note("accounting_mismatch_events", mismatch_total)
+    rep.note("natural_policy_runs", natural_runs)
     rep.assumptions += ["liveness is read from the reachable flags after a forced full collection (hook H-heap); 'eventually' is decided "
                         "as: reclaimed by the second forced full collection after the pattern ended"]
     return rep.finish()
